@@ -1278,6 +1278,26 @@ def e2e_eval(case: dict) -> _Collector:
                     if n is not m:
                         n.network.add_verified_peer(m.my_peer)
             state: dict = {}
+            # network fault: challenges / challenge responses (message ids 3 and 4) duplicated in transit. "dup" is
+            # None, "all", or a bit mask over the running number (mod 32) of such datagrams
+            dup = case.get("dup")
+            counter = {"n": 0, "dups": 0}
+
+            def duplicating(ep):
+                orig = ep.send
+
+                def send(address, packet):
+                    orig(address, packet)
+                    if dup and len(packet) > 22 and packet[22] in (3, 4):
+                        k = counter["n"]
+                        counter["n"] += 1
+                        if dup == "all" or (int(dup) >> (k % 32)) & 1:
+                            counter["dups"] += 1
+                            orig(address, packet)
+                ep.send = send
+            if dup:
+                duplicating(subject.endpoint)
+                duplicating(verifier.endpoint)
 
             async def pump(cond) -> bool:
                 for _ in range(_PUMP_LIMIT):
@@ -1342,17 +1362,20 @@ def e2e_eval(case: dict) -> _Collector:
     return c
 
 
-def _e2e_strategy(quick: bool):
+def _e2e_strategy(quick: bool, dup_mode: str = "none"):
     from hypothesis import strategies as st
+    dup = {"none": st.none(), "all": st.just("all"), "mask": st.integers(1, 2 ** 32 - 1),
+           "range": st.none(), "range-dup": st.just("all")}[dup_mode]
     value = st.one_of(st.binary(max_size=40), st.text(max_size=20).map(lambda t: t.encode("utf-8")))
     exact = st.fixed_dictionaries({
         "part": st.just("e2e"), "seed": st.integers(0, 2 ** 32 - 1),
         "format": st.just("id_metadata") if quick else st.sampled_from(["id_metadata"] * 5 + ["id_metadata_big"]),
-        "value": value, "rivals": st.lists(value, min_size=1, max_size=3)})
+        "value": value, "rivals": st.lists(value, min_size=1, max_size=3),
+        "dup": dup})
     rng = st.fixed_dictionaries({
         "part": st.just("e2e"), "seed": st.integers(0, 2 ** 32 - 1), "format": st.just("id_metadata_range_18plus"),
-        "value": st.integers(18, 200).map(_int_to_value)})
-    return st.one_of(exact, exact, rng)
+        "value": st.integers(18, 200).map(_int_to_value), "dup": dup})
+    return rng if dup_mode.startswith("range") else exact
 
 
 def _hyp_e2e_shard(ctx: Ctx, shard: int, nshards: int, n: int) -> None:
@@ -1362,12 +1385,13 @@ def _hyp_e2e_shard(ctx: Ctx, shard: int, nshards: int, n: int) -> None:
         c = _limited(e2e_eval, case)
         if _gave_up(ctx, c, "e2e", case):
             return
-        ctx.case(case, not c.fails, cls="b:e2e/" + case["format"])
+        ctx.case(case, not c.fails, cls="b:e2e/" + case["format"] + ("/dup" if case.get("dup") else ""))
         for v in c.fails.values():
             ctx.violation(v)
         if c.fails:
             raise c.first()
-    hyp_run(ctx, "e2e", _e2e_strategy(ctx.quick), body, n, shrink_examples=6)
+    for mode in ("none", "all", "mask", "range", "range-dup"):
+        hyp_run(ctx, "e2e:" + mode, _e2e_strategy(ctx.quick, mode), body, n, shrink_examples=6)
 
 
 # ======================================================================================================
@@ -1384,7 +1408,7 @@ def run(ctx: Ctx) -> None:
         ctx.count("skipped_after_cpu_limit:parts_c_and_e2e")
         return
     shard_run(ctx, _hyp_range_shard, extra=(4 if ctx.quick else 60,))
-    shard_run(ctx, _hyp_e2e_shard, extra=(1 if ctx.quick else 25,))
+    shard_run(ctx, _hyp_e2e_shard, extra=(1 if ctx.quick else 15,))
 
 
 _EVAL = {"exact": exact_eval, "range": range_eval, "ser": ser_eval, "e2e": e2e_eval}
